@@ -79,9 +79,23 @@ pub fn pool(seed: u64) -> Vec<Call> {
             cells.push(id);
         }
     }
+    // ladders: points that are a cell vertex at EVERY resolution (the poles = two face centres, other face centres,
+    // dodecahedron vertices), looked up at all resolutions one after the other
+    let mut ladder_points: Vec<(f64, f64)> = vec![(12.3, 90.0), (-119.877, -90.0)];
+    for k in [1usize, 4, 8] {
+        ladder_points.push(crate::geom::lonlat_from_unit(fr.centres[k]));
+    }
+    for k in [0usize, 7, 13] {
+        ladder_points.push(crate::geom::lonlat_from_unit(fr.vertices[k]));
+    }
+    for (lon, lat) in ladder_points {
+        for res in 2..=29 {
+            v.push(Call::Lookup { lon, lat, res });
+        }
+    }
     // vertex clusters: the exact corners of a cell looked up at its own and the neighbouring resolutions, and points a
     // few centimetres away - the lookups that reach the search's rarely taken branches (probe hits, nearest-cell fallback)
-    for k in 0..24usize {
+    for k in 0..48usize {
         let id = cells[1 + (k * 7) % (cells.len() - 1)];
         let Some(c) = decode(id) else { continue };
         if c.res < 2 {
